@@ -45,6 +45,7 @@ var (
 	tracebackBlacklist = map[string]bool{
 		"pgregory.net/rapid.(*customGen[...]).maybeValue.func1": true,
 		"pgregory.net/rapid.runAction.func1":                    true,
+		"pgregory.net/rapid.(*T).cleanupAfterFailure.func1":     true,
 	}
 )
 
